@@ -189,7 +189,8 @@ func PhytoOut(g *GlobalVarsMain, l *CropSharedVars, hPath *HFilePath, zeit int, 
 							if g.REGEN[g.TAG.Index]+g.REGEN[g.TAG.Index-1]+g.REGEN[g.TAG.Index-2]+g.REGEN[g.TAG.Index-3] <= g.RAINLIM[g.AKF.Index] && g.REGEN[g.TAG.Index] <= g.RAINACT[g.AKF.Index] {
 								g.ERNTE[g.AKF.Index] = zeit
 								g.ERNTE2[g.AKF.Index] = g.ERNTE[g.AKF.Index]
-								if g.SAAT[g.AKF.Index+1] > 0 && g.SAAT[g.AKF.Index+1] < zeit {
+								if g.SAAT[g.AKF.Index+1] > 0 && g.SAAT[g.AKF.Index+1] <= zeit {
+									// the following crop cannot be sown before or on the harvest day
 									g.SAAT[g.AKF.Index+1] = zeit + 4
 									g.SAAT2[g.AKF.Index+1] = zeit + 4
 								}
@@ -200,6 +201,11 @@ func PhytoOut(g *GlobalVarsMain, l *CropSharedVars, hPath *HFilePath, zeit int, 
 			}
 			if zeit == g.ERNTE2[g.AKF.Index]-1 && g.ERNTE[g.AKF.Index] == 0 {
 				g.ERNTE[g.AKF.Index] = zeit + 1
+				if g.SAAT[g.AKF.Index+1] > 0 && g.SAAT[g.AKF.Index+1] <= g.ERNTE[g.AKF.Index] {
+					// harvest at the deadline: a following crop due before or on that day is sown after it
+					g.SAAT[g.AKF.Index+1] = g.ERNTE[g.AKF.Index] + 4
+					g.SAAT2[g.AKF.Index+1] = g.ERNTE[g.AKF.Index] + 4
+				}
 			}
 		}
 		//! ----------------------- End of automatic harvest --------------------------
@@ -548,7 +554,7 @@ func PhytoOut(g *GlobalVarsMain, l *CropSharedVars, hPath *HFilePath, zeit int, 
 	}
 	if zeit == g.ERNTE2[g.AKF.Index]-1 && g.ERNTE[g.AKF.Index] == 0 {
 		g.ERNTE[g.AKF.Index] = zeit + 1
-		if g.SAAT[g.AKF.Index+1] > 0 && g.SAAT[g.AKF.Index+1] < zeit {
+		if g.SAAT[g.AKF.Index+1] > 0 && g.SAAT[g.AKF.Index+1] <= g.ERNTE[g.AKF.Index] {
 			g.SAAT[g.AKF.Index+1] = g.ERNTE[g.AKF.Index] + 4
 			g.SAAT2[g.AKF.Index+1] = g.ERNTE[g.AKF.Index] + 4
 		}
